@@ -240,6 +240,7 @@ Inductive c10case :=
 | CRead (value by_ : Z)           (* a reader received (value, updatedBy) *)
 | CEvent (value by_ : Z)          (* a subscriber received a New/Modified event carrying (value, updatedBy) *)
 | CEventDup (value by_ : Z)       (* ... whose version an earlier event of the same key already carried *)
+| CBytes (one_version : bool)     (* a reader was handed a byte-array value; did its bytes show one version *)
 | CQuiet (reads writes : N).      (* a child run finished; counters *)
 
 Definition find_row (id : N) : option row := find (fun r => N.eqb (r_id r) id) table.
@@ -260,6 +261,8 @@ Fixpoint pair_index (p : N * N) (l : list (N * N)) (i : N) : option N :=
       the writer's guard, so unlike 50 this is not explained by the lock-free getters);
    52 two events of one key carried the same version: an event record was converted after
       the writer had left its guarded section and shows a later writer's version;
+   53 the bytes of a byte-array value changed under the reader: a stored value is immutable
+      (a Set installs a new slice), so a slice that was handed out keeps showing one version;
    100 + i: the race is the i-th predicted racy pair of the table *)
 Definition check_case (c : c10case) : N :=
   match c with
@@ -277,6 +280,7 @@ Definition check_case (c : c10case) : N :=
   | CRead v b => if Z.eqb v b then 0%N else 50%N
   | CEvent v b => if Z.eqb v b then 0%N else 51%N
   | CEventDup _ _ => 52%N
+  | CBytes ok => if ok then 0%N else 53%N
   | CQuiet _ _ => 0%N
   end.
 
